@@ -256,6 +256,51 @@ fn c04(out: &mut Out, thorough: bool) {
         }
     }
     out.bounded("C04/subscribers: unsubscribe / remove_subscriber leave the other registrations intact", "every pattern of depth <= 2 removed in turn from a tree holding all patterns; all keys re-checked", cases3, cases3);
+
+    // ---- through the real Worterbuch: a removal (delete / pdelete) reaches every subscriber whose pattern matches, unique or not
+    {
+        let rt = rt();
+        let mut n = 0;
+        for how in ["delete", "pdelete a/?", "pdelete a/#", "pdelete #"] {
+            n += 1;
+            let r = catch_unwind(AssertUnwindSafe(|| rt.block_on(async {
+                let cfg = worterbuch::Config::new(None).await.expect("config");
+                let mut wb = Worterbuch::with_config(cfg);
+                let w = ClientId::from_u128(7);
+                wb.set("a/b".to_owned(), json!(1), w, false).await.expect("set");
+                let subs: [(&str, bool); 6] = [("a/?", false), ("a/?", true), ("a/#", true), ("#", true), ("?/b", true), ("b/?", true)];
+                let mut rxs = vec![];
+                for (i, (pat, unique)) in subs.iter().enumerate() {
+                    let (rx, _) = wb.psubscribe(ClientId::from_u128(100 + i as u128), 1, (*pat).to_owned(), *unique, true).await.expect("psubscribe");
+                    rxs.push(rx);
+                }
+                let (mut krx, _) = wb.subscribe(ClientId::from_u128(200), 1, "a/b".to_owned(), true, true).await.expect("subscribe");
+                match how {
+                    "delete" => { wb.delete("a/b".to_owned(), w).await.expect("delete"); }
+                    other => { wb.pdelete(other[8..].to_owned(), w).await.expect("pdelete"); }
+                }
+                let mut problems = vec![];
+                for (i, (pat, unique)) in subs.iter().enumerate() {
+                    let want = wb_match(&parse_pat(pat), &split("a/b"));
+                    // a `#` subscriber also sees the server's own $SYS bookkeeping: look through everything that arrived
+                    let mut got = false;
+                    while let Ok(ev) = rxs[i].try_recv() {
+                        if let worterbuch_common::PStateEvent::Deleted(kvs) = ev { if kvs.iter().any(|kv| kv.key == "a/b") { got = true; } }
+                    }
+                    if got != want { problems.push(json!({"subscriber_pattern": pat, "unique": unique, "notified_of_removal": got, "pattern_matches_key": want})); }
+                }
+                if !matches!(krx.try_recv(), Ok(worterbuch_common::StateEvent::Deleted(_))) { problems.push(json!({"subscriber_key": "a/b", "unique": true, "notified_of_removal": false})); }
+                problems
+            })));
+            match r {
+                Err(_) => out.report("C04/no panic in the removal-notification scenario", Some("UNLISTED"), json!({"removal": how})),
+                Ok(problems) => for p in problems {
+                    out.report("C04/a subscriber is notified of the removal of a key <=> its pattern matches the key (unique or not)", Some("UNLISTED"), json!({"removal_of_a/b_by": how, "problem": p}));
+                },
+            }
+        }
+        out.bounded("C04/removal notifications through the real Worterbuch (unique and non-unique pattern subscribers)", "key a/b removed by delete and by pdelete a/?, a/#, #; 6 pattern subscribers + 1 key subscriber", n, n);
+    }
     // leaves: the two parsers (keys: parse_segments, patterns: KeySegment::parse) against `split('/')` + seg_of
     let mut np = 0;
     for w in words(&["a", "", "?", "#", "ab"], 1, 3) {
@@ -446,11 +491,12 @@ fn c19(out: &mut Out) {
 fn c06(out: &mut Out, thorough: bool) {
     use tokio::sync::oneshot::{self, error::TryRecvError};
     let rt = rt();
-    let ids = [ClientId::from_u128(1), ClientId::from_u128(2), ClientId::from_u128(3)];
+    let ids = [ClientId::from_u128(1), ClientId::from_u128(2), ClientId::from_u128(3), ClientId::from_u128(4), ClientId::from_u128(5)];
     // ---- the Lock object (leaf Lock::queue + the proved release, cross-checked): all op sequences up to a length
     #[derive(Clone, Copy, Debug)]
     enum Op { Release(usize), Queue(usize) }
-    let ops: Vec<Op> = (0..3).flat_map(|c| [Op::Release(c), Op::Queue(c)]).collect();
+    // 5 clients: a holder and up to four waiters (a waiter that gives up must not disturb the order of three others)
+    let ops: Vec<Op> = (0..5).flat_map(|c| [Op::Release(c), Op::Queue(c)]).collect();
     let maxlen = if thorough { 6 } else { 5 };
     let mut seqs: Vec<Vec<Op>> = vec![vec![]];
     let mut all: Vec<Vec<Op>> = vec![];
@@ -523,7 +569,7 @@ fn c06(out: &mut Out, thorough: bool) {
             Err(_) => out.report("C06/Lock::{release,queue}: no panic", Some("UNLISTED"), json!({"ops": format!("{seq:?}")})),
         }
     }
-    out.bounded("C06/Lock::{new,release,queue} against the lock contract (leaf Lock::queue)", &format!("3 clients, all sequences of release/queue up to length {maxlen}"), cases, cases);
+    out.bounded("C06/Lock::{new,release,queue} against the lock contract (leaf Lock::queue)", &format!("5 clients, all sequences of release/queue up to length {maxlen}"), cases, cases);
 
     // ---- the lock table of the Store: lock / acquire_lock / unlock / unlock_all over 2 keys
     #[derive(Clone, Copy, Debug)]
@@ -632,6 +678,40 @@ fn c06(out: &mut Out, thorough: bool) {
         }
     }
     out.bounded("C06/Store::{lock,acquire_lock,unlock,unlock_all} against the lock-table model", &format!("3 clients x 2 keys, all sequences of lock/acquire/release/disconnect up to length {smax}"), scases, scases);
+
+    // ---- the end of a session through the real Worterbuch::disconnected, with and without extended monitoring
+    let mut wcases = 0;
+    for monitoring in [true, false] {
+        wcases += 1;
+        let r = catch_unwind(AssertUnwindSafe(|| rt.block_on(async {
+            let mut cfg = worterbuch::Config::new(None).await.expect("config");
+            cfg.extended_monitoring = monitoring;
+            let mut wb = Worterbuch::with_config(cfg);
+            let (a, b, c, d) = (ids[0], ids[1], ids[2], ids[3]);
+            let mut problems = vec![];
+            wb.lock("k".to_owned(), a).await.expect("lock by A");
+            let mut rx_b = wb.acquire_lock("k".to_owned(), b).await.expect("acquire by B");
+            let mut rx_c = wb.acquire_lock("k".to_owned(), c).await.expect("acquire by C");
+            // a session that ends while waiting is removed from the queue with its request cancelled
+            wb.disconnected(b, None).await.ok();
+            if rx_b.try_recv() != Err(TryRecvError::Closed) { problems.push(json!({"step": "B disconnects while waiting", "problem": "its request was not cancelled"})); }
+            if rx_c.try_recv() != Err(TryRecvError::Empty) { problems.push(json!({"step": "B disconnects while waiting", "problem": "C's waiting request was confirmed or cancelled"})); }
+            // the end of the holder's session frees the lock and passes it on
+            wb.disconnected(a, None).await.ok();
+            if rx_c.try_recv() != Ok(()) { problems.push(json!({"step": "holder A disconnects", "problem": "the next waiting client C was not confirmed"})); }
+            if wb.lock("k".to_owned(), d).await.is_ok() { problems.push(json!({"step": "D locks while C holds", "problem": "granted"})); }
+            wb.disconnected(c, None).await.ok();
+            if wb.lock("k".to_owned(), d).await.is_err() { problems.push(json!({"step": "D locks after C's session ended", "problem": "refused: the lock did not die with C's session"})); }
+            problems
+        })));
+        match r {
+            Err(_) => out.report("C06/no panic in the session-end scenario", Some("UNLISTED"), json!({"extended_monitoring": monitoring})),
+            Ok(problems) => for p in problems {
+                out.report("C06/a lock dies with its session (real Worterbuch::disconnected)", Some("UNLISTED"), json!({"extended_monitoring": monitoring, "problem": p}));
+            },
+        }
+    }
+    out.bounded("C06/a lock dies with its session (real Worterbuch::disconnected)", "4 clients, one key, holder + two waiters + a late comer; extended monitoring on and off", wcases, wcases);
 }
 
 // ================================================================================================
@@ -694,6 +774,11 @@ impl Harness {
         let client = ClientId::from_u128(42);
         let mut ls_rx = vec![];
         if with_ls {
+            // subscribers whose session has gone away without unsubscribing (receiver dropped), registered BEFORE the live ones of the same parent
+            for (i, p) in [None, Some("a")].into_iter().enumerate() {
+                let (dead_rx, _) = wb.subscribe_ls(ClientId::from_u128(44 + i as u128), 300 + i as u64, p.map(|s: &str| s.to_owned())).await.expect("subscribe_ls");
+                drop(dead_rx);
+            }
             for (i, p) in [None, Some("a"), Some("a/a"), Some("c")].into_iter().enumerate() {
                 let (mut rx, _) = wb.subscribe_ls(client, 100 + i as u64, p.map(|s: &str| s.to_owned())).await.expect("subscribe_ls");
                 let first = rx.try_recv().unwrap_or_default();
